@@ -56,3 +56,13 @@ Proof. intros EW AW UJ H. destruct (install_order c k s func kd s' g EW AW UJ H)
   - cbn [app] in Hin. destruct Hin as [E|[E|Hin]]; [|discriminate|].
     + injection E as <- <-. split; auto. apply in_or_app. right. right. left. reflexivity.
     + apply in_app_or in Hin. destruct Hin as [Hin|[Hin|[]]]; [|discriminate]. exfalso. rewrite Forall_forall in Fm. exact (Fm _ Hin). Qed.
+
+(* and at every moment of a restoration: the original bytes are written back (and flushed) BEFORE the trampoline is unmapped, so the entry
+   never branches into an unmapped page; exactly one munmap, of the guard's own trampoline with its own length *)
+Theorem drop_guard_order allp k s g s' : drop_guard allp k s g = (s', ROk tt) ->
+  exists ppa ppl, o_trace s' = o_trace s ++
+    [EMprotect ppa ppl true; EWrite (g_func g) (firstn (g_psize g) (g_orig g)); EFlush (g_func g) (g_func g + zlen (firstn (g_psize g) (g_orig g)))]
+    ++ (if g_jit g =? 0 then [] else [EMunmap (g_jit g) (g_jsize g)]) ++ [EFlush (g_func g) (g_func g + Z.of_nat (g_psize g))].
+Proof. unfold drop_guard. destruct (patch_function allp k s (g_func g) _) as [s1 [[]| |]] eqn:P; intros H; try discriminate.
+  injection H as <-. apply patch_function_spec in P. destruct P as (_ & _ & _ & ppa & ppl & T). exists ppa, ppl.
+  destruct (g_jit g =? 0); cbn [do_flush do_munmap munmap_core ev o_trace]; rewrite T, <- !app_assoc; reflexivity. Qed.
